@@ -24,7 +24,7 @@ ASSUMPTIONS = ['string order is compared on ASCII only (UTF-16 vs code-point ord
 
 
 def plan(tier):
-    return {'stages': [('shard', 16)], 'timeout_s': 3000}
+    return {'stages': [('shard', 14), ('shard_js_values', 2)], 'timeout_s': 3000}
 
 
 NUMS = ['1', '2', '3', '10', '9', '100', '-4', '0', '25', '7']
@@ -276,7 +276,92 @@ def shard(shard, nshards, tier, seed, scratch):
     return {'stats': stats.export(), 'failures': failures}
 
 
+# ---------------------------------------------------------------------------------------------
+# JavaScript-only values (NaN, Infinity, undefined): the sort / dedup / truncate composition is checked on
+# rbql-js outputs alone (no Python counterpart exists for these values)
+
+JS_VALUE_EXPRS = ['parseInt(a1)', '10 / parseInt(a2)', 'undefined', 'a1', 'a2', 'NR % 2', 'parseFloat(a1) * 2', '[a1, parseInt(a2)]', 'Number(a2)', 'a1.length / parseInt(a2)', 'null']
+
+
+@st.composite
+def st_js_values(draw):
+    n = draw(st.integers(0, 7))
+    A = [[draw(st.sampled_from(['1', 'x', '0', '2', '', '1'])), draw(st.sampled_from(['0', '2', 'y', '2']))] for _ in range(n)]
+    items = draw(st.lists(st.sampled_from(JS_VALUE_EXPRS), min_size=1, max_size=3))
+    mode = draw(st.sampled_from([None, 'distinct', 'count', 'count']))
+    top = draw(st.sampled_from([None, None, 0, 1, 2, 3]))
+    order = draw(st.sampled_from([None, None, 'NR % 2', '-NR']))
+    return {'kind': 'js-values', 'A': A, 'items': items, 'mode': mode, 'top': top, 'order': order, 'desc': draw(st.booleans())}
+
+
+def _json_class(v):
+    # what JSON.stringify makes of a value inside an array (rbql-js identifies records by it)
+    if isinstance(v, dict) and ('__float__' in v or '__undefined__' in v):
+        return None
+    if isinstance(v, list):
+        return [_json_class(x) for x in v]
+    return v
+
+
+def check_js_values(case, drv, stats=None):
+    sel = ', '.join(case['items'])
+    tail = (' ORDER BY %s%s' % (case['order'], ' DESC' if case['desc'] else '')) if case['order'] else ''
+    plain_q = 'SELECT ' + sel + tail
+    head = 'SELECT ' + ('TOP %d ' % case['top'] if case['top'] is not None else '') + {None: '', 'distinct': 'DISTINCT ', 'count': 'DISTINCT COUNT '}[case['mode']]
+    full_q = head + sel + tail
+    plain = drv.query_table(plain_q, copy.deepcopy(case['A']))
+    full = drv.query_table(full_q, copy.deepcopy(case['A']))
+    if stats is not None:
+        flat = json_dumps(plain['out'])
+        stats.case(case, ('__float__' in flat or '__undefined__' in flat) and case['mode'] is not None, ['js-values', 'js-values-%s' % case['mode']], sample={'js_query': full_q, 'A': case['A'], 'out': full['out'][:4]})
+    if plain['error'] is not None or full['error'] is not None:
+        if (plain['error'] is None) != (full['error'] is None):
+            raise Violation('js-values-error-differs', {'plain_query': plain_q, 'query': full_q, 'plain': plain['error'], 'full': full['error']})
+        return
+    seq = plain['out']
+    if case['mode']:
+        uniq, counts, keys = [], [], []
+        for r in seq:
+            k = json_dumps(_json_class(r))
+            if k in keys:
+                counts[keys.index(k)] += 1
+            else:
+                keys.append(k)
+                uniq.append(r)
+                counts.append(1)
+        seq = uniq if case['mode'] == 'distinct' else [[c] + u for c, u in zip(counts, uniq)]
+    if case['top'] is not None:
+        seq = seq[:case['top']]
+    if full['out'] != seq:
+        raise Violation('js-values-composition', {'query': full_q, 'plain_query': plain_q, 'A': case['A'], 'got': full['out'][:6], 'expected_from_plain_output': seq[:6]})
+
+
+def json_dumps(v):
+    import json
+    return json.dumps(v, sort_keys=True)
+
+
+def shard_js_values(shard, nshards, tier, seed, scratch):
+    total = 1500 if tier == 'quick' else 30000
+    stats = Stats()
+    drv = jsdriver.Driver()
+    try:
+        failures = run_hypothesis(st_js_values(), lambda c: check_js_values(c, drv, stats), max(1, total // nshards), seed, shrink_budget=200 if tier == 'quick' else 1500)
+    finally:
+        drv.close()
+    for f in failures:
+        f['leg'] = 'js-values'
+    return {'stats': stats.export(), 'failures': failures}
+
+
 def replay(case, clause=None):
+    if case.get('kind') == 'js-values':
+        drv = jsdriver.Driver()
+        try:
+            check_js_values(case, drv)
+        finally:
+            drv.close()
+        return
     drv = jsdriver.Driver()
     try:
         check_case(case, drv)
